@@ -52,3 +52,8 @@ register_meta('C13', level='proof', explanation='regular-language obligations + 
               trusted=['relang/nfa.py: sre parse tree -> NFA with exact character-class alphabet and \\b from neighbour classes; product with spec automata'],
               assumptions=['IPv6 drop_leading_zeros layouts are bounded stand-ins', 'regexes with look-arounds (e-mail, URL, phone, hashtag, mention) assumed',
                            'sweep completeness (nothing dropped) not under contract'])
+
+register_meta('C03', level='proof', explanation='contracts on the digit-literal value, sign and format glue',
+              assumptions=['Decimal arithmetic under the 15-digit context is exact real arithmetic for the values involved',
+                           'Decimal(0.1) behaves as one tenth after multiplication by a digit and rounding (finite lemma, tools/validate_lib.py)',
+                           'layouts of literals are fixed per contract; the regex layer decides which literals are extracted'])
